@@ -1234,7 +1234,7 @@ func c03Search(c *Ctx, cfg c03Cfg, bd c03Bound, sub, subs int) {
 							if r2.Obs != nil {
 								o2 = r2.Obs.outcome()
 							}
-							c.Error("replay divergence: %s: %s [+%d operations in the same world] => %s: in the shared world %s %q, alone %s %q (states %q / %q)", cfgKey, c03HistString(node.hist), len(prefix), op.String(), o1, r.Key, o2, r2.Key, r.Canon, r2.Canon)
+							c.Unstable("replay divergence: %s: %s [+%d operations in the same world] => %s: in the shared world %s %q, alone %s %q (states %q / %q)", cfgKey, c03HistString(node.hist), len(prefix), op.String(), o1, r.Key, o2, r2.Key, r.Canon, r2.Canon)
 						}
 						c.Inc("traces_validated_against_impl")
 					}
